@@ -7,6 +7,8 @@
  * case blob: "MVC1" u8 prop, u8 flags, u16 0, u32 seed, u32 cfg_len, u32 prog_len, u32 sched_len, bytes
  */
 #include "common.h"
+#include <sys/prctl.h>
+#include <signal.h>
 #include <signal.h>
 #include <poll.h>
 #include <fcntl.h>
@@ -137,6 +139,7 @@ static size_t run_case(const uint8_t * blob, size_t n, char * rep, size_t cap, d
   pid_t pid = fork();
   if (pid < 0) { perror("fork"); exit(2); }
   if (pid == 0) {
+    prctl(PR_SET_PDEATHSIG, SIGKILL);   /* no case process survives its server */
     close(res[0]); close(err[0]);
     dup2(err[1], 2); dup2(err[1], 1);
     close(0); open("/dev/null", O_RDONLY);
